@@ -133,7 +133,7 @@ def global_hook(eng, name):
 def _apply_logged(eng, st, con, name, pos, kw):
     tr0 = _tr(st)
     outs = eng.apply_contract(st, con, list(pos), kw)
-    return [(k, _log(s, tr0, name, tuple(pos), _kws(kw), st, s) if k == "ok" else s.setghost("trace", tr0), v) for k, s, v in outs]
+    return [(k, _log(s, tr0, name, tuple(pos), _kws(kw), st, s, v) if k == "ok" else s.setghost("trace", tr0), v) for k, s, v in outs]
 
 
 def call_abstract(eng, st, f, pos, kw):
@@ -175,6 +175,8 @@ def call_method_hook(eng, st, recv, name, pos, kw):
         a = dict(kw)
         if len(pos) < 2:
             a.setdefault("raise_error", VBool(False))
+        if not pos:
+            a.setdefault("objective_sense", NONE)
         tr0 = _tr(st)
         res = []
         for k, s, v in eng.apply_contract(st, OPT, [recv] + list(pos), a):
@@ -288,7 +290,7 @@ def _pfba_post(E):
         return z3.BoolVal(False)
     cs = []
     # ADD: add_pfba(model, objective=objective, fraction_of_optimum=fraction_of_optimum), first, on the untouched model, in the own context
-    _, pos, kws, st_add, st_added = tr[0]
+    _, pos, kws, st_add, st_added, _none = tr[0]
     kwd = dict(kws)
     if not (len(pos) == 1 and _is_model(E, pos[0]) and set(kwd) == {"objective", "fraction_of_optimum"}
             and kwd["objective"] is E["objective"] and kwd["fraction_of_optimum"] is E["fraction_of_optimum"]
@@ -364,5 +366,250 @@ REG.add(Contract(MP, "pfba", "C09", [("model", _model_t()), ("fraction_of_optimu
                       "callers see the objective attributes as modified"))
 
 
+# ================================================================ optimize_minimal_flux(*args, **kwargs): one pfba call, passed through
+def _omf_shapes():
+    """(tag, how the arguments are split between *args and **kwargs)"""
+    def mk(pos_names, kw_names, types):
+        def args(st, name):
+            vals = []
+            for n in pos_names:
+                st, v = types[n].make(st, "omf_" + n)
+                vals.append(v)
+            return st, VTuple(vals)
+
+        def kwargs(st, name):
+            d = {"__kwargs__": True}
+            for n in kw_names:
+                st, v = types[n].make(st, "omf_" + n)
+                d[n] = v
+            return st, VConc(d)
+        return {"args": TCustom(args), "kwargs": TCustom(kwargs)}
+    T = {"model": _model_t(), "fraction_of_optimum": N.TNp(), "reactions": N.TNp(), "objective": TNone()}
+    return [("model_only", mk(["model"], [], T)),
+            ("positional_fraction/keyword_reactions", mk(["model", "fraction_of_optimum"], ["reactions"], T)),
+            ("all_keywords", mk([], ["model", "fraction_of_optimum", "objective"], T))]
+
+
+def _omf_model(E):
+    kw = E["kwargs"].py
+    return kw["model"] if "model" in kw else E["args"].items[0]
+
+
+def _omf_env(E):
+    return Env({"model": _omf_model(E)}, E.s0, E.s1, res=E.res, exc=E.exc, eng=E.eng, role=E.role)
+
+
+def _omf_passed_through(E, raised=False):
+    """the trace is ONE pfba call whose positional values are *args (same values, same order) and whose keywords are **kwargs"""
+    tr = _tr(E.s1)
+    if raised:
+        return len(tr) == 0          # (a raising call leaves no event: nothing else was called either)
+    if len(tr) != 1 or tr[0][0] != "pfba":
+        return False
+    _, pos, kws, st_call, _after, v = tr[0]
+    want_kw = {k: x for k, x in E["kwargs"].py.items() if k != "__kwargs__"}
+    return (len(pos) == len(E["args"].items) and all(x is y for x, y in zip(pos, E["args"].items))
+            and set(dict(kws)) == set(want_kw) and all(dict(kws)[k] is want_kw[k] for k in want_kw)
+            and len(_tr(st_call)) == 0 and _same_problem(E.s0, st_call, _omf_model(E))
+            and st_call.objs[_omf_model(E).oid] is E.s0.objs[_omf_model(E).oid] and v is E.res)
+
+
+def _omf_post(E):
+    if E.role != "goal":
+        return _visible_result(_omf_env(E))
+    return z3.And(z3.BoolVal(bool(_omf_passed_through(E))), _visible_result(_omf_env(E)))
+
+
+def _omf_raise(E):
+    if E.role != "goal":
+        return _stack_as_at_entry(_omf_env(E), E.s1)
+    return z3.And(z3.BoolVal(bool(_omf_passed_through(E, raised=True))), _stack_as_at_entry(_omf_env(E), E.s1))
+
+
+def _omf_cases():
+    out = []
+    for tag, over in _omf_shapes():
+        c = Case(tag, requires=lambda E: z3.Not(CP._already(_omf_env(E))), ensures=_omf_post)
+        c.may_raise = "OptimizationError"
+        c.ensures_on_raise = _omf_raise
+        bad = Case("already_pfba/" + tag, requires=lambda E: CP._already(_omf_env(E)), raises="ValueError", ensures=_omf_raise)
+        bad.modifies_on_raise = lambda E: _ctx_mod(_omf_env(E))
+        c.params_override = bad.params_override = over
+        out += [c, bad]
+    return out
+
+
+REG.add(Contract(MP, "optimize_minimal_flux", "C09", [("*args", TTuple([_model_t()])), ("**kwargs", TConc({"__kwargs__": True}))],
+                 _omf_cases(), pre=lambda E: _pfba_pre(_omf_env(E)), modifies=lambda E: _pfba_mod(_omf_env(E)),
+                 key="optimize_minimal_flux", result=_new_result,
+                 note="three ways of splitting the arguments between *args and **kwargs; preconditions of pfba"))
+
+
+# ================================================================ the builders as seen by a caller (call-site forms)
+# add_room / add_moma are PROVED against post-conditions that read the ghost trace of the calls they make (the snapshot of the list handed
+# to add_cons_vars).  A caller sees the same conjuncts with that list as a ghost ("added", key) = (len, elem, reference): existential
+# introduction over the proved post-condition (lemmas `call-form-follows` below, from the very formulas).
+def _added_result(key):
+    def result(eng, st, E):
+        given = E["solution"]
+        S = given.t if isinstance(given, N.VNp) else fresh("np:reference_solution", N.NP)
+        ln, elem = fresh("added_len", z3.IntSort()), fresh("added_elem", z3.ArraySort(z3.IntSort(), N.NP))
+        return st.setghost(("added", key), (ln, elem, S)), NONE
+    return result
+
+
+def _room_visible(E, S, ln, elem):
+    n, rx = CR._rxns(E)
+    obj1 = E.s1.objs[CR._objective_of(E.s1, E["model"]).oid]
+    x, xr, w = qv("px", N.NP), qv("pr", Ref), qv("pw")
+    is_y = z3.Exists([w], z3.And(0 <= w, w < n, x == CR.y_var(E, rx[w])))
+    o1 = CR.objc_np(E.s1)
+    return z3.And(ln == 2 + 3 * n, elem[0] == CR.old_variable(E), elem[1] == CR.old_constraint(E), CR._blocks(E, S, elem, n, rx),
+                  obj1["attr:direction"].t == id_lit("min"),
+                  FA([x], o1[x] == z3.If(is_y, z3.RealVal(1), z3.RealVal(0)), patterns=[o1[x]]),
+                  FA([xr], C5.objc(E.s1)[xr] == 0, patterns=[C5.objc(E.s1)[xr]]))
+
+
+def _moma_visible(E, S, ln, elem):
+    n, rx = CR._rxns(E)
+    obj1 = E.s1.objs[CR._objective_of(E.s1, E["model"]).oid]
+    x, xr, w = qv("px", N.NP), qv("pr", Ref), qv("pw")
+    is_dist = z3.Exists([w], z3.And(0 <= w, w < n, x == CM.components(E, S, rx[w])[0]))
+    o1 = CR.objc_np(E.s1)
+    return z3.And(ln == 2 + 3 * n, elem[0] == CR.old_variable(E, CM.OLD_VAR), elem[1] == CR.old_constraint(E, CM.OLD_VAR, CM.OLD_CONS),
+                  CM._blocks(E, S, elem, n, rx), obj1["attr:direction"].t == id_lit("min"),
+                  FA([x], o1[x] == z3.If(is_dist, z3.RealVal(1), z3.RealVal(0)), patterns=[o1[x]]),
+                  FA([xr], C5.objc(E.s1)[xr] == 0, patterns=[C5.objc(E.s1)[xr]]))
+
+
+VISIBLE = {"add_room": _room_visible, "add_moma": _moma_visible}
+
+
+def _builder_post_call(key):
+    def post(E):
+        g = E.s1.ghost.get(("added", key))
+        if g is None:
+            return z3.BoolVal(False)
+        ln, elem, S = g
+        return VISIBLE[key](E, S, ln, elem)
+    return post
+
+
+def _builder_call_cases(key, already, tagp=""):
+    out = []
+    for tag, given in (("reference_given", True), ("reference_from_pfba", False)):
+        pred = (lambda given: lambda a, st: isinstance(a["solution"], VNone) != given)(given)
+        c = Case(tagp + tag, requires=lambda E: z3.Not(already(E)), ensures=_builder_post_call(key))
+        c.result = _added_result(key)
+        bad = Case(tagp + "already/" + tag, requires=already, raises="ValueError")
+        c.applies = bad.applies = pred
+        out += [c, bad]
+    return out
+
+
+REG.get("add_room").call_cases = _builder_call_cases("add_room", CR._already)
+REG.get("add_moma").call_cases = _builder_call_cases("add_moma", CM._already, "linear/")
+
+
 def add_moma_contract_for(linear):
     return REG.get("add_moma")
+
+
+# ================================================================ moma / room
+BUILDER = {"moma": ("add_moma", ("model", "solution", "linear")), "room": ("add_room", ("model", "solution", "linear", "delta", "epsilon"))}
+
+
+def _driver_mod(key):
+    def mod(E):
+        m = E["model"]
+        return _ctx_mod(E) + CR._mod(Env({"model": m}, E.s0, eng=E.eng)) + C4._slim_mod(Env({"self": m}, E.s0, eng=E.eng))
+    return mod
+
+
+def _driver_post(key):
+    bkey, names = BUILDER[key]
+
+    def post(E):
+        if E.role != "goal":
+            return _visible_driver_result(E)
+        m = E["model"]
+        tr = _tr(E.s1)
+        if [ev[0] for ev in tr] != [bkey, "optimize"]:
+            return z3.BoolVal(False)
+        # BUILD: the builder, every argument the driver's own, first, on the untouched model, in the own context
+        _, pos, kws, st_b, st_built, _none = tr[0]
+        kwd = dict(kws)
+        if not (not pos and set(kwd) == set(names) and all(kwd[k] is E[k] for k in names) and len(_tr(st_b)) == 0
+                and _same_problem(E.s0, st_b, m)):
+            return z3.BoolVal(False)
+        cs = [_in_own_context(E, st_b)]
+        # SOLVE: one optimize() in the model's own direction, the builder's effect in force, in the own context
+        _, recv, opos, okws, st_solve, st_solved, sol = tr[1]
+        if not (_is_model(E, recv) and not opos and _own_direction(okws)):
+            return z3.BoolVal(False)
+        Eb = Env({k: E[k] for k in names}, st_b, st_solve, eng=E.eng)
+        cs += [_builder_post_call(bkey)(Eb), _in_own_context(E, st_solve)]
+        # RETURN: the Solution of THAT solve
+        if not (isinstance(E.res, N.VNp) and E.res.t.eq(sol.t)):
+            return z3.BoolVal(False)
+        cs += [_is_solution_of(E, sol.t, st_solved), _stack_as_at_entry(E, E.s1)]
+        return z3.And(*cs)
+    return post
+
+
+def _visible_driver_result(E):
+    if not isinstance(E.res, N.VNp):
+        return z3.BoolVal(False)
+    return z3.And(_is_solution_of(E, E.res.t, E.s1), _stack_as_at_entry(E, E.s1))
+
+
+def _driver_solve_failed(key):
+    bkey, _ = BUILDER[key]
+
+    def post(E):
+        if E.role != "goal":
+            return _stack_as_at_entry(E, E.s1)
+        if [ev[0] for ev in _tr(E.s1)] != [bkey, "optimize:raised"]:
+            return z3.BoolVal(False)
+        return _stack_as_at_entry(E, E.s1)
+    return post
+
+
+def _driver_refused(E):
+    if E.role != "goal":
+        return _stack_as_at_entry(E, E.s1)
+    return z3.And(z3.BoolVal(len(_tr(E.s1)) == 0), _stack_as_at_entry(E, E.s1))
+
+
+def _driver_cases(key, already, variants):
+    out = []
+    for vtag, vover in variants:
+        for tag, t in (("reference_given", N.TNp()), ("reference_from_pfba", TNone())):
+            pred = (lambda tag: lambda a, st: isinstance(a["solution"], VNone) == (tag != "reference_given"))(tag)
+            c = Case(vtag + tag, requires=lambda E: z3.Not(already(E)), ensures=_driver_post(key))
+            c.may_raise = "OptimizationError"
+            c.ensures_on_raise = _driver_solve_failed(key)
+            bad = Case(vtag + "already/" + tag, requires=already, raises="ValueError", ensures=_driver_refused)
+            bad.modifies_on_raise = _ctx_mod
+            c.params_override = bad.params_override = dict(vover, solution=t)
+            c.applies = bad.applies = pred
+            out += [c, bad]
+    return out
+
+
+_sol = N.TNp()
+_sol.default = NONE
+_lin_m = TConc(True)
+_lin_m.default = VBool(True)
+REG.add(Contract(CM.MM, "moma", "C09", [("model", _model_t()), ("solution", _sol), ("linear", _lin_m)],
+                 _driver_cases("moma", CM._already, [("linear/", {"linear": TConc(True)})]),
+                 pre=CR._pre, modifies=_driver_mod("moma"), key="moma", result=_new_result,
+                 note="preconditions of add_moma; the rollback of the MOMA problem at context exit is C03 / C13 (not replayed here)"))
+_sol2 = N.TNp()
+_sol2.default = NONE
+_lin_r, _dl_r, _ep_r = TBool(), TReal(), TReal()
+_lin_r.default, _dl_r.default, _ep_r.default = VBool(False), VReal(0, z3.RealVal("0.03")), VReal(0, z3.RealVal("0.001"))
+REG.add(Contract(CR.MR, "room", "C09", [("model", _model_t()), ("solution", _sol2), ("linear", _lin_r), ("delta", _dl_r), ("epsilon", _ep_r)],
+                 _driver_cases("room", CR._already, [("", {})]),
+                 pre=CR._pre, modifies=_driver_mod("room"), key="room", result=_new_result,
+                 note="preconditions of add_room; the rollback of the ROOM problem at context exit is C03 / C13 (not replayed here)"))
